@@ -778,6 +778,8 @@ impl Graph {
         self.validate_inputs(&inputs)?;
         let input_ids: Vec<_> = inputs.iter().map(|(node_id, _)| *node_id).collect();
         let plan = self.get_cached_plan(&input_ids, outputs, false /* is_subgraph */)?;
+        #[cfg(rten_verif)]
+        crate::verif::yield_point("after_plan");
         let opts = opts.unwrap_or_default();
         opts.thread_pool().run(|| {
             let mut profiler =
@@ -825,6 +827,8 @@ impl Graph {
     ) -> Result<Vec<Value>, RunError> {
         let input_ids: Vec<_> = inputs.iter().map(|(node_id, _)| *node_id).collect();
         let plan = self.get_cached_plan(&input_ids, outputs, true /* is_subgraph */)?;
+        #[cfg(rten_verif)]
+        crate::verif::yield_point("after_subgraph_plan");
         let opts = opts.unwrap_or_default();
         self.run_plan(
             inputs,
@@ -849,10 +853,18 @@ impl Graph {
         //
         // Note that we only hold the plan lock while creating the plan,
         // not while executing the model.
+        #[cfg(rten_verif)]
+        crate::verif::yield_point("before_plan_lock");
         let mut cached_plan = self.cached_plan.lock().unwrap();
+        #[cfg(rten_verif)]
+        let mut verif_plan_created = false;
         let plan = match cached_plan.as_ref() {
             Some(plan) if plan.matches(inputs, outputs) => plan.clone(),
             _ => {
+                #[cfg(rten_verif)]
+                {
+                    verif_plan_created = true;
+                }
                 let plan = self.create_plan(
                     inputs,
                     outputs,
@@ -865,6 +877,18 @@ impl Graph {
                 cached_plan.clone().unwrap()
             }
         };
+        #[cfg(rten_verif)]
+        {
+            std::mem::drop(cached_plan);
+            crate::verif::emit(if verif_plan_created {
+                crate::verif::Event::PlanCreated {
+                    n_ops: plan.plan().len(),
+                    is_subgraph,
+                }
+            } else {
+                crate::verif::Event::PlanCacheHit { is_subgraph }
+            });
+        }
         Ok(plan)
     }
 
@@ -1135,6 +1159,11 @@ impl Graph {
                     .flatten()
                     .and_then(|node_id| weight_cache.and_then(|wc| wc.get(node_id)))
             };
+            #[cfg(rten_verif)]
+            let verif_in_place: Vec<usize> =
+                in_place_taken.iter().map(|(pos, ..)| *pos).collect();
+            #[cfg(rten_verif)]
+            let verif_by_value = by_value_captures.as_ref().map(|c| c.len()).unwrap_or(0);
             let inputs = InputList::from_optional(&op_inputs).with_prepacked(&get_prepacked);
             let mut ctx = OpRunContext::new(pool, &inputs, op_node.output_mask());
             ctx.set_name(op_node.name());
@@ -1187,6 +1216,17 @@ impl Graph {
             };
             std::mem::drop(op_inputs);
 
+            #[cfg(rten_verif)]
+            if crate::verif::events_enabled() {
+                crate::verif::emit(crate::verif::Event::OpRun {
+                    node: op_node_id.as_u32(),
+                    op: op_node.operator().name().to_string(),
+                    in_place: verif_in_place,
+                    by_value_captures: verif_by_value,
+                    ok: op_result.is_ok(),
+                });
+            }
+
             // Print verbose logs if enabled. This is done before checking the
             // op's result, so logs will contain details of the failed operation
             // in the event of an error.
@@ -1226,6 +1266,10 @@ impl Graph {
                     && use_pool
                     && let Some(tensor) = temp_values.remove(node_id)
                 {
+                    #[cfg(rten_verif)]
+                    crate::verif::emit(crate::verif::Event::PoolRelease {
+                        node: node_id.as_u32(),
+                    });
                     tensor.add_to_pool(pool)
                 }
             }
